@@ -3388,6 +3388,12 @@ def main(repo, outdir):
     guard("CompoundGen.v", lambda: gen_compound(f"{repo}/src/pacti/iocontract/compundiocontract.py", pc))
     # after gen_algebra: uses the signatures of the IoContract methods (METHOD_SIGS)
     guard("WrapGen.v", lambda: gen_wrap(pc, f"{repo}/src/pacti/iocontract/iocontract.py"))
+    import py2coq_json  # generator for the JSON / dictionary side, in its own module: translator/py2coq_json.py
+    guard("JsonGen.v", lambda: py2coq_json.gen_json(repo))
+    import py2coq_syntax  # generator for the syntax layer (C09): translator/py2coq_syntax.py
+    guard("SyntaxGen.v", lambda: py2coq_syntax.gen_syntax(repo))
+    from py2coq_termlist import gen_termlist      # generator for PolyhedralTermList: translator/py2coq_termlist.py
+    guard("TermListGen.v", lambda: gen_termlist(repo))
     changed = []
     for name, txt in res.items():
         p = os.path.join(outdir, name)
